@@ -98,7 +98,11 @@ func addrName(a []resolver.Address) string {
 	}
 	var n []string
 	for _, x := range a {
-		n = append(n, x.Addr)
+		e := x.Addr
+		if x.ServerName != "" {
+			e += "/" + x.ServerName
+		}
+		n = append(n, e)
 	}
 	return strings.Join(n, "+")
 }
@@ -179,6 +183,10 @@ var addrLists = map[string][]resolver.Address{
 	"a1":    {{Addr: "a1"}},
 	"a2":    {{Addr: "a2"}},
 	"empty": {},
+	// lists that differ from each other only by order or by per-address metadata
+	"a1+a2":   {{Addr: "a1"}, {Addr: "a2"}},
+	"a2+a1":   {{Addr: "a2"}, {Addr: "a1"}},
+	"a1/s+a2": {{Addr: "a1", ServerName: "s"}, {Addr: "a2"}},
 }
 
 const (
